@@ -55,6 +55,24 @@ def run_impl(case):
         source = gen()
     elif kind == 'list':
         source = list(xs)
+    elif kind in ('reiter', 'drain'):
+        # an iterable that is not an iterator: a container whose iteration is observable ('reiter': every
+        # iter() starts over) or not repeatable ('drain': iteration consumes the underlying deque)
+        import collections
+        dq = collections.deque(xs)
+
+        class Box:
+            def __iter__(self):
+                if kind == 'drain':
+                    while dq:
+                        x = dq.popleft()
+                        pulled.append(x)
+                        yield x
+                else:
+                    for x in xs:
+                        pulled.append(x)
+                        yield x
+        source = Box()
     elif kind == 'range':
         source = range(len(xs))
     else:
@@ -85,7 +103,7 @@ def run_impl(case):
             outs.append(ch + str(v))
         except StopIteration:
             outs.append(ch + 'S')
-    return outs, (pulled if kind == 'gen' else None), predlog
+    return outs, (pulled if kind in ('gen', 'reiter', 'drain') else None), predlog
 
 
 def model_line(case):
@@ -163,7 +181,7 @@ def gen_cases(ctx):
                 for oplen in range(0, n + 3):
                     for ops in itertools.product('TF', repeat=oplen):
                         case = {'kind': kind, 'src': xs, 'ops': ''.join(ops),
-                                'srckind': ('gen', 'list', 'iter')[(ci + oplen) % 3]}
+                                'srckind': ('gen', 'list', 'iter', 'reiter', 'drain')[(ci + oplen + len(xs)) % 5]}
                         if kind == 'callable':
                             case['tab'] = c
                         else:
@@ -176,7 +194,7 @@ def gen_cases(ctx):
     for _ in range(nrand):
         n = rng.randint(0, 7)
         xs = [rng.choice(dom) for _ in range(n)]
-        case = {'src': xs, 'srckind': rng.choice(['gen', 'gen', 'list', 'iter'])}
+        case = {'src': xs, 'srckind': rng.choice(['gen', 'gen', 'list', 'iter', 'reiter', 'drain'])}
         if xs == list(range(n)) and rng.random() < 0.5:
             case['srckind'] = 'range'
         if rng.random() < 0.5:
